@@ -362,7 +362,7 @@ impl PropertySet {
         for encoded in encoded_values.iter() {
             writer.write_all(encoded)?;
         }
-        Ok(())
+        writer.flush()
     }
 
     pub fn format_identifier(&self) -> &[u8; 16] {
